@@ -11,6 +11,7 @@ import (
 	"time"
 
 	"github.com/hashicorp/go-hclog"
+	"github.com/hashicorp/go-plugin/internal/verifhook"
 	"github.com/hashicorp/yamux"
 )
 
@@ -116,6 +117,7 @@ func (m *GRPCServerMuxer) Accept() (net.Conn, error) {
 
 	for {
 		conn, acceptErr := session.Accept()
+		verifhook.Point("smux.accepted", 0)
 
 		select {
 		case id := <-m.knockCh:
